@@ -18,6 +18,7 @@ RULES = {
     "C05.R8": "dispatch totality: __torch_dispatch__/__torch_function__ forward *args/**kwargs to the handler or the fallback",
     "C05.R9": "qfallback dequantizes every QTensor in args and kwargs",
     "C05.R10": "re-quantizing handlers compute on dequantized values and re-quantize with the operand qtype and documented scale",
+    "C05.R17": "integer payload arithmetic does not wrap: neg / abs are applied to a raw int8 payload only after the lowest code (which has no positive counterpart) has been clamped away",
     "C05.R12": "scale positivity: a handler that rescales by a scalar preserves the sign of the scale whenever another handler works on raw payloads assuming a positive scale",
     "C05.R13": "guard helpers mean what the rules assume: is_scalar = python number or plain 0-dim tensor; cannot_mm = grouped payload",
     "C05.R16": "in-place variants: a handler registered for an in-place aten op (trailing underscore) updates and returns its first operand on every path (a handler that returns a fresh tensor leaves the operand and its aliases unchanged)",
@@ -131,6 +132,7 @@ def run(chk):
     chk.floor("C05.R16", n_ip, 1, "handlers registered for in-place ops")
     try:
         c07.accumulation(chk, {"qbytes_mm": repo.func("qbytes_mm")}, rule="C05.R15")
+        c07.handler_accumulation(chk, rule="C05.R15")
     except AnalysisError:
         chk.unknown("C05.R15", "library/qbytes_mm.py", "default qbytes_mm not found")
     chk.sample({"handlers": [h.name for h in hs["qbytes"]]})
